@@ -35,6 +35,46 @@ def outcome_of(pane, T, v, fn=None):
         return ('raw:' + type(e).__name__, e)
 
 
+_MARK = '<scribble>'
+
+
+def poison(x, depth=0) -> bool:
+    """Modify every mutable container reachable from a conversion result in place; True when something was modified."""
+    import collections
+    hit = False
+    if depth > 6:
+        return False
+    if isinstance(x, list):
+        for e in list(x):
+            hit |= poison(e, depth + 1)
+        x.append(_MARK)
+        return True
+    if isinstance(x, collections.deque):
+        for e in list(x):
+            hit |= poison(e, depth + 1)
+        x.append(_MARK)
+        return True
+    if isinstance(x, dict):
+        for e in list(x.values()):
+            hit |= poison(e, depth + 1)
+        x[_MARK] = _MARK
+        return True
+    if isinstance(x, set):
+        x.add(_MARK)
+        return True
+    if isinstance(x, (tuple, frozenset)):
+        for e in x:
+            try:
+                hit |= poison(e, depth + 1)
+            except Exception:  # noqa
+                pass
+        return hit
+    if hasattr(type(x), '__pane_info__'):
+        for f in type(x).__pane_info__.fields:
+            hit |= poison(getattr(x, f.name, None), depth + 1)
+    return hit
+
+
 def judge(ctx, ast, sp, T, vi, v):
     res = ctx.res
     pane = ctx.pane
@@ -72,6 +112,19 @@ def judge(ctx, ast, sp, T, vi, v):
                                f"from_data({values.expr(v)}, {grammar.render(ast)} [{T!r}]) returned {core.srepr(out[1])} but the "
                                f"value is not a member ({r[1]})", e1.cell_desc(ast, sp, vi, v), cost)
             return
+    # independence from what was done to earlier results: scribble into every mutable container of the value just returned and
+    # convert the same data again - a default (or anything else) shared between results, or kept by the memoised converter,
+    # shows up in the second image
+    if r[0] == OK and out[0] == 'ok' and any(l.startswith('dc_') for l in leaves) and poison(out[1]):
+        out3 = outcome_of(pane, T, values.fresh(v))
+        res['transitions'] += 1
+        m3 = 'raised ' + core.sstr(out3[1], 120) if out3[0] != 'ok' else refmodel.match(r[1], out3[1])
+        if m3:
+            core.add_violation(res, {'kind': 'second_result_depends_on_first', 'root': root, 'leaves': leaves},
+                               f"from_data({values.expr(v)}, {grammar.render(ast)}) a second time, after the containers of the first "
+                               f"result were modified, returned {core.srepr(out3[1])}: {m3}", e1.cell_desc(ast, sp, vi, v), cost)
+            return
+        out = out3       # (the first result is scribbled over: compare the clean second one below)
     # independence from the memo: a freshly built converter gives the same verdict and value
     if sp == (0, 0):
         from pane.convert import make_converter
